@@ -54,6 +54,11 @@ CLAIMS = {
   text="Exploration, exhaustive on the finite domain the property names: every one of the 3,652,059 days, 119,988 month-year and 9,999 year-only dates is built (struct and text route) and its bounds, length, Years containment and day-to-day monotonicity are compared with an integer Gregorian calendar cross-checked against time.Date; random day pairs and DateNodes lists cover IsBefore/IsAfter/Minimum/Maximum. Exhaustive sub-checks are marked in evidence.",
   note="Trusted: Go time.Date, internal/ref/calendar.go (40 lines), rapid. Years outside 1..9999 are outside the property.",
   design="6.5"),
+ "C20": dict(
+  technique="model-based PBT (rapid): warnings oracle evaluated on generated facts (day numbers) vs Document.Warnings(), metamorphic record/child reordering, CLI line count",
+  text="Exploration: family graphs with exact dates are generated so that each warning condition is met or not met, with the boundaries that whole days decide generated exactly (sibling gaps 0/1/2/3 days, child born the day before/of/after a parent's birth, later-group events the day before/of an earlier-group event) and margins only around the approximate thresholds (16 and 100 years, 9 months). The expected multiset of (kind, people, dates) is computed from the blueprint alone and must equal the typed projection of Document.Warnings() (name, context, people named in the message), also after reversing records and children; the built 'gedcom warnings' binary must print exactly one line per warning.",
+  note="Trusted: the conditions as documented (EstimatedBirthDate/EstimatedDeathDate fallbacks included); inside the stated bands a warning is optional; a marriage before the spouse's birth is not judged; unparsable dates only in RESI/ENGA events; all dates before 1975.",
+  design="6.20"),
 }
 
 NOT_YET = "check not built yet in this session (see DESIGN.md section 6 for the plan)"
